@@ -874,7 +874,11 @@ func c11StructOps(sp, other *samlgen.KeyPair) []c11Op {
 			return true
 		}},
 		// the mismatching certificate in a document that binds the XML-DSig / XML-Enc namespaces to other prefixes, or to none
-		{"cert-other-rsa+other-prefixes", true, func(ed *etree.Element) bool { r := setCert(other.CertB64, true)(ed); reprefix(ed, "other-prefixes"); return r }},
+		{"cert-other-rsa+other-prefixes", true, func(ed *etree.Element) bool {
+			r := setCert(other.CertB64, true)(ed)
+			reprefix(ed, "other-prefixes")
+			return r
+		}},
 		{"cert-other-rsa+default-namespace-on-KeyInfo", true, func(ed *etree.Element) bool {
 			r := setCert(other.CertB64, true)(ed)
 			reprefix(ed, "default-namespace-on-KeyInfo")
